@@ -67,6 +67,13 @@ def check_C07(tier, seed, res, replay=None):
         vb = vlib.tlc_validate("TraceTA.tla", [bf])
         res.add_validation(vb)
         res.report_fails(vb["fails"], os.path.join(vlib.OUT, "viol"))
+    # Layer 2: the upward antichain inclusion of the BDD bottom-up encoding as written after the repair of D9 (two antichains,
+    # per-position candidate macro-states copied before a rule is expanded), every pair of the bound, every schedule
+    from p_ta import model_with_mutants
+    model_with_mutants(res, "InclUpBdd.tla", "InclUpBdd.cfg", [], "InclUpBdd")
+    if tier == "thorough":
+        model_with_mutants(res, "InclUpBdd.tla", "InclUpBddLeaf3.cfg", ["UnionChildren", "RevSubsume", "NoFinalCheck"], "InclUpBdd")
+        model_with_mutants(res, "InclUpBdd.tla", "InclUpBdd3.cfg", [], "InclUpBdd")
 
 
 # ------------------------------------------------------------------------------------- C08
